@@ -629,7 +629,7 @@ fn run_all(ctx: &Ctx) -> i32 {
         }
         texts.push(("corpus".into(), text.clone()));
         let toks = split_tokens(&text);
-        let step = if thorough { 1 } else { 5 };
+        let step = if thorough { 1 } else { 7 };
         for i in (0..toks.len()).step_by(step) {
             // deletion
             let mut v = toks.clone();
@@ -637,7 +637,7 @@ fn run_all(ctx: &Ctx) -> i32 {
             texts.push((format!("corpus-deletion:{}", name), v.concat()));
             // replacement / insertion by every token of the alphabet (a rotating subset in quick)
             for (ti, tok) in TOKENS.iter().enumerate() {
-                if thorough || (ti + i) % 11 == 0 {
+                if thorough || (ti + i) % 13 == 0 {
                     let mut r = toks.clone();
                     r[i] = tok.to_string();
                     texts.push((format!("corpus-replacement:{}", name), r.concat()));
